@@ -33,6 +33,9 @@ static void loadConfig(const json::Object &o) {
   if (auto v = o.getInteger("widenAfter")) CFG.widenAfter = (int)*v;
   if (auto v = o.getBoolean("dedupe")) CFG.dedupe = *v;
   if (auto v = o.getInteger("frameForkWiden")) CFG.frameForkWiden = (int)*v;
+  if (auto v = o.getInteger("ptrWidenAfter")) CFG.ptrWidenAfter = (int)*v;
+  if (auto v = o.getInteger("longLoop")) CFG.longLoop = (int)*v;
+  if (auto v = o.getInteger("fmtForkMax")) CFG.fmtForkMax = *v;
   if (auto v = o.getString("reportRegion")) CFG.reportRegion = v->str();
   if (auto a = o.getArray("fields"))
     for (auto &f : *a) { auto &fo = *f.getAsObject(); FieldSpec fs; fs.name = fo.getString("name")->str(); fs.lo = *fo.getInteger("lo"); fs.hi = *fo.getInteger("hi"); fs.writable = *fo.getBoolean("writable"); CFG.fields.push_back(fs); }
@@ -165,6 +168,7 @@ static std::string pathRecord(State &S, std::map<std::string, int> &setTable, st
   o += "]";
   if (!CFG.reportRegion.empty())
     for (auto &R : S.regions) if (R.name == CFG.reportRegion) {
+      o += ",\"nul\":[" + std::to_string(R.rd().nulLo) + "," + std::to_string(R.rd().nulHi) + "]";
       o += ",\"out\":[";
       const RegionData &D = R.rd();
       size_t n = std::min(D.bytes.size(), (size_t)400);
@@ -216,7 +220,8 @@ int main(int argc, char **argv) {
       State T = std::move(E.work.back()); E.work.pop_back();
       E.run(std::move(T));
       for (auto &D : E.done) {
-        if (D.aborted && D.abortMsg == "infeasible") { if (D.dedup) ndedup++; continue; }
+        if (getenv("XAI_TRACE_DONE") && D.steps > 100000) errs() << "[done] steps=" << D.steps << " aborted=" << D.aborted << " msg=" << D.abortMsg << " dedup=" << D.dedup << " alarms=" << D.alarms.size() << "\n";
+        if (D.aborted && D.abortMsg == "infeasible") { if (D.dedup) ndedup++; if (D.alarms.empty()) continue; D.abortMsg = "pruned"; }
         npaths++;
         std::string r = pathRecord(D, setTable, sets);
         if (!recs.count(r)) order.push_back(r);
